@@ -51,11 +51,11 @@ def intake(wt):
 
 def run(only=None):
     rows = []
-    for d in sorted(os.listdir(EQ)):
-        sd = os.path.join(EQ, d)
-        if not os.path.isfile(os.path.join(sd, "patch.diff")) or (only and only not in d):
-            continue
-        res = run_checks(sd)
+    todo = [d for d in sorted(os.listdir(EQ)) if os.path.isfile(os.path.join(EQ, d, "patch.diff")) and not (only and only not in d)]
+    from concurrent.futures import ThreadPoolExecutor
+    with ThreadPoolExecutor(4) as pool:
+        results = list(zip(todo, pool.map(lambda d: run_checks(os.path.join(EQ, d)), todo)))
+    for d, res in results:
         if "error" in res:
             print(f"{d}: {res['error']}"); continue
         fired = [p for p, r in res.items() if r["rc"] == 1]
